@@ -23,6 +23,25 @@ def conditions(tier, seed):
                             bound='schema %s: every assignment of pool key values to 2 referred and %d referring rows (shard %d/%d)' % (sch, nb, sh, ns),
                             case_split=['ci (key assignment)'], realised=['model text'],
                             twin=(sch in ('uid', 'uid_str') and sh == 0)))
+    for model in ('explicit', 'linked', 'inferred'):
+        n = {'explicit': 8, 'linked': 8, 'inferred': 5}[model]
+        # all permutations (8! = 40320 for the explicit models: sharded; quick takes a seed-rotated slice)
+        if model == 'inferred':
+            out.append(Cond('order_%s_allperms' % model, 'c03_order.py', dict(model=model, route='input', perms='all'), timeout=t,
+                            bound='inferred schema (no CREATE TABLE): all 120 row permutations x 5 partitions into input() calls',
+                            case_split=['ci (permutation, partition)'], realised=['model text']))
+        else:
+            ns = 1024 if tier == 'quick' else 64
+            picks = [(seed * 7 + k * 341) % ns for k in range(3)] if tier == 'quick' else list(range(ns))
+            for sh in picks:
+                out.append(Cond('order_%s_perms_s%d' % (model, sh), 'c03_order.py',
+                                dict(model=model, route='input', perms='all', shard=sh, nshards=ns), timeout=t,
+                                bound='%s model: statement permutations x 5 partitions, shard %d of %d of all 8! x 5' % (model, sh, ns),
+                                case_split=['ci (permutation, partition)'], realised=['model text'], twin=(sh == picks[0])))
+        for route in ('input', 'files', 'dir', 'zip'):
+            out.append(Cond('order_%s_parts_%s' % (model, route), 'c03_order.py', dict(model=model, route=route, perms='few'), timeout=t,
+                            bound='%s model: 4 permutations x every partition into up to three parts, given through %s' % (model, route),
+                            case_split=['ci (permutation, partition)'], realised=['model text, files'], twin=(route in ('input', 'zip'))))
     for route in ('new', 'clone'):
         for sch in ['uid', 'str', 'int', 'uid_str', 'shared']:
             ns = 1 if sch == 'int' else 4 if sch in ('uid', 'str', 'shared') else 8
